@@ -91,4 +91,26 @@ theorem C04_given_filters (fnm : String → String → Bool) (o : C04.Opts) (pat
   · simp only [C04.Opts.excluded, h, Plumb.matchedNames]
     cases hp : Plumb.patternFilter fnm pats name <;> simp [hp, hn]
 
+/-! ### option tables of `fieldcompare file` (harness/fcv/tables/cli_options.py, regenerated from the source) -/
+
+/-- every key with which `_file_mode._run` reads its argument dict is a destination that `_add_arguments` declares
+    (a misspelt key would raise `KeyError`, or — with `args.get` — silently read `None`). -/
+theorem C04_options_reads_declared : Plumb.allDeclared Gen.optFileDests Gen.optFileReads = true := by decide
+
+/-- every field of `FileComparisonOptions` the model knows is fed from exactly the destination the model expects
+    (`Plumb.expectedWiring`: the scenario's flags / tolerance tokens / patterns ARE the fields of `Cli.Opts`) … -/
+theorem C04_options_wiring :
+    (Plumb.expectedWiring.all fun e => Gen.optFileWiring.lookup e.1 == some [e.2]) = true := by decide
+
+/-- … and file mode feeds no other field, and leaves none of the dataclass's fields at its default. -/
+theorem C04_options_wiring_complete :
+    (Gen.optFileWiring.all fun e => Plumb.expectedWiring.lookup e.1 == e.2.head?) = true ∧
+    (Gen.optFields.all fun f => (Gen.optFileWiring.lookup f).isSome) = true := by decide
+
+/-- the Boolean switches (`action="store_true"` destinations) reach their field as they are (up to `bool(…)`): not
+    negated, not combined with anything. -/
+theorem C04_options_flags_direct :
+    (Gen.optFileWiring.all fun e =>
+      !(e.2.all Gen.optFileStoreTrue.contains) || Gen.optFileWiringKind.lookup e.1 == some "direct") = true := by decide
+
 end Fc
